@@ -104,7 +104,7 @@ def generate(rng: random.Random, batch: dict, depth: int = 0) -> dict:
                         "pack": rng.randrange(len(packs))})
     if "resource" not in inst and rng.random() < 0.04:
         inst = {**inst, "caller": {
-            "src": rng.choice(["auto", "auto", "int64"]),
+            "src": rng.choice(["auto", "auto", "int64", "fortran", "instance"]),
             "reuse": rng.choice(["scale", "zero"])}}
     doc = {"inst": inst, "packs": packs, "buffers": rng.choice([1, 1, 2]),
            "ops": ops}
@@ -245,8 +245,11 @@ def _execute_one(doc: dict, name: str) -> dict:
                     vals = [rnd.randrange(-3 * n_items - 3,
                                           W * H * 2 + 3)
                             for _ in range(a.size)]
-                a[...] = np.array(vals, dtype=np.int64).astype(
-                    a.dtype).reshape(a.shape)
+                try:
+                    a[...] = np.array(vals, dtype=np.int64).astype(
+                        a.dtype).reshape(a.shape)
+                except (TypeError, ValueError):
+                    continue    # not an array of the kind known here
                 temp_state[name] = op["kind"]
             core.bump(res["faults"], f"scribble_temp:{op['kind']}")
             res["events"].append(["scribble_temp", op["kind"]])
